@@ -597,3 +597,7 @@ PROPS["C04"]["rule"] += (" Another action kind writes to its view of the event (
                          "execution must count exactly one, and the caller's event must be unchanged afterwards.")
 PROPS["C20"]["rule"] += (" Capacity part: half of the cases serve the location through a sys.System whose default location control, or "
                          "the control of the location's group (GroupControls / LocToGroup), carries the maximum.")
+PROPS["C13"]["rule"] += (" One case in six continues with a 'self-binding' sequence: a variable-looking string stored (or sent) as data, "
+                         "a pattern that binds the variable of the same name to it, and a later conjunct or rule condition that uses "
+                         "the variable again (each pattern holds the variable once; repeated variables in one pattern over such data "
+                         "are the excluded known finding).")
